@@ -1,4 +1,5 @@
 import Proofs.DistReal
+import Proofs.DistGenEq
 
 /-!
 # C16 — stochastic policies report the true log-probability and entropy of their actions
@@ -20,6 +21,13 @@ Gaussian / Bernoulli / Categorical component values handed to the model are the 
 log-probabilities (those come from `torch.distributions`, cross-checked by the harness oracle);
 float32 rounding (the bound of `C16_masked_prob_bound` is below the smallest float32 subnormal as
 soon as `1e8 − spread > 104`, which is what makes the masked probability exactly zero in floats).
+
+Source translation (`C16_source_translation_*`, last section): `harness/py2lean_dist.py` executes
+`agilerl/networks/distributions.py` and `StochasticActor.{__init__, forward, action_log_prob, action_entropy,
+scale_action}` symbolically, once per action-space kind, and writes `Gen/DistGen.lean` (regenerated from the tree
+under test on every run); `Proofs/DistGenEq.lean` proves those definitions equal to the composition functions of
+`Model/Dist.lean`, and the main theorems above are restated over the generated definitions with the elementary
+functions and primitive log-densities as the explicit parameter structure `DistGen.Prims`.
 -/
 namespace Dist
 open Util
@@ -243,6 +251,228 @@ theorem C16_squash_eps_bound (a eps : ℝ) (ha : a ^ 2 < 1) (he : 0 ≤ eps) :
       field_simp; ring
     linarith
 
+/-! ### the theorems over the definitions generated from the source text (`Gen/DistGen.lean`) -/
+
+section source_translation
+set_option linter.unusedSectionVars false
+variable [Add α] [Sub α] [Mul α] [Zero α] (P : DistGen.Prims α)
+
+/-- **over the translated source**: which `torch.distributions` object is built for which action space (read off
+    the `isinstance` chain of `get_distribution` and the `_handlers` table in source order), the std is
+    `exp(log_std)`, squashing is switched on only for Box, any other space class raises. -/
+theorem C16_source_translation_distribution_per_space (log_std logits : List α) (nvec : List Nat)
+    (sq : Bool) (init : α) (d : Nat) :
+    DistGen.Box.distribution P log_std logits = .normal logits (log_std.map P.exp) ∧
+    DistGen.Discrete.distribution P logits = .categorical logits ∧
+    DistGen.MultiDiscrete.distribution P nvec logits = .categoricals (splitSizes logits nvec) ∧
+    DistGen.MultiBinary.distribution P logits = .bernoulli logits ∧
+    DistGen.Other.distribution_raises = "NotImplementedError" ∧
+    DistGen.Box.log_std_init P init d = List.replicate d (P.lit 1 * init) ∧
+    (DistGen.Box.squash_flag P sq = sq ∧ DistGen.Discrete.squash_flag P = false ∧
+      DistGen.MultiDiscrete.squash_flag P = false ∧ DistGen.MultiBinary.squash_flag P = false) :=
+  ⟨gen_distribution_box_eq P _ _, gen_distribution_discrete_eq P _, gen_distribution_multiDiscrete_eq P _ _,
+   gen_distribution_multiBinary_eq P _, rfl, gen_log_std_init_eq P _ _, gen_squash_flag_eq P sq⟩
+
+/-- **over the translated source** (MultiDiscrete): the action returned is the draw, and the reported log-probability
+    is the sum over **all** `len(nvec)` components of the primitive categorical log-probability of coordinate `k` under
+    **its own** slice `[offset k, offset k + nvec[k])` of the logits. -/
+theorem C16_source_translation_sum_over_components (nvec : List Nat) (logits : List α)
+    (action : List Nat) (hact : action.length = nvec.length) :
+    (DistGen.MultiDiscrete.forward P nvec logits action).1 = action ∧
+    ∃ vals : List α, (DistGen.MultiDiscrete.forward P nvec logits action).2.1 = vals.sum ∧
+      vals.length = nvec.length ∧
+      ∀ k (hk : k < nvec.length), vals[k]? =
+        some (P.categoricalLogProb ((logits.drop (offset nvec k)).take nvec[k]) (action[k]'(by omega))) := by
+  rw [gen_multiDiscrete_forward_eq]
+  refine ⟨rfl, _, rfl, by simp [splitSizes_length, hact], fun k hk => ?_⟩
+  rw [List.getElem?_zipWith, splitSizes_getElem? logits nvec k hk,
+    List.getElem?_eq_getElem (show k < action.length by omega)]
+
+/-- the same through the hand model: when a table `tbl` tabulates the primitive, the model's split / select / sum
+    (`multiCatLogProb`, the subject of `C16_sum_over_components`) returns exactly the generated value -/
+theorem C16_source_translation_sum_over_components_model (tbl : List α → List α)
+    (hP : ∀ l k, k < (tbl l).length → (tbl l)[k]? = some (P.categoricalLogProb l k))
+    (nvec : List Nat) (logits : List α) (action : List Nat)
+    (hval : List.Forall₂ (fun part k => k < (tbl part).length) (splitSizes logits nvec) action) :
+    multiCatLogProb ((splitSizes logits nvec).map tbl) action
+      = some (DistGen.MultiDiscrete.forward P nvec logits action).2.1 :=
+  gen_multiDiscrete_log_prob_eq P tbl hP nvec logits action hval
+
+/-- **over the translated source** (MultiBinary): bit `i` contributes the primitive Bernoulli log-probability of
+    that bit under logit `i`; the reported value is the sum over all bits -/
+theorem C16_source_translation_sum_over_components_bits (logits : List α) (bits : List Bool)
+    (hb : bits.length = logits.length) :
+    ∃ terms : List α, (DistGen.MultiBinary.forward P logits bits).2.1 = terms.sum ∧
+      terms.length = logits.length ∧
+      ∀ i (hi : i < logits.length), terms[i]? = some (P.bernoulliLogProb logits[i] (bits[i]'(by omega))) := by
+  refine ⟨List.zipWith P.bernoulliLogProb logits bits, rfl, by simp [hb], fun i hi => ?_⟩
+  simp [List.getElem?_zipWith, List.getElem?_eq_getElem hi,
+    List.getElem?_eq_getElem (show i < bits.length by omega)]
+
+/-- **over the translated source** (Box, no squashing): dimension `i` contributes the primitive Gaussian log-density
+    with mean `logits[i]` and std `exp(log_std[i])` at coordinate `i` of the draw; summed over all dimensions -/
+theorem C16_source_translation_sum_over_components_normal (low high log_std logits u : List α)
+    (hs : log_std.length = logits.length) (hu : u.length = logits.length) :
+    (DistGen.Box.forward P false low high log_std logits u).1 = u ∧
+    ∃ terms : List α, (DistGen.Box.forward P false low high log_std logits u).2.1 = terms.sum ∧
+      terms.length = logits.length ∧
+      ∀ i (hi : i < logits.length), terms[i]? =
+        some (P.normalLogPdf logits[i] (P.exp (log_std[i]'(by omega))) (u[i]'(by omega))) := by
+  refine ⟨rfl, DistGen.zipWith3 P.normalLogPdf logits (log_std.map P.exp) u, rfl, ?_, fun i hi => ?_⟩
+  · simp [gen_zipWith3_eq, hs, hu]
+  · simp [gen_zipWith3_eq, List.getElem?_zipWith, List.getElem?_eq_getElem hi,
+      List.getElem?_eq_getElem (show i < log_std.length by omega),
+      List.getElem?_eq_getElem (show i < u.length by omega)]
+
+/-- **over the translated source**: the reported entropy is the sum of the component entropies for every space;
+    with squashing `forward` and `action_entropy` report `None` -/
+theorem C16_source_translation_entropy_sum (low high log_std logits u : List α) (nvec : List Nat)
+    (act : List Nat) (bits : List Bool) :
+    (DistGen.Box.forward P false low high log_std logits u).2.2
+      = some (List.zipWith P.normalEntropy logits (log_std.map P.exp)).sum ∧
+    (DistGen.Box.forward P true low high log_std logits u).2.2 = none ∧
+    DistGen.Box.entropy_stored P true log_std logits = none ∧
+    DistGen.Box.entropy_stored P false log_std logits
+      = some (List.zipWith P.normalEntropy logits (log_std.map P.exp)).sum ∧
+    (DistGen.MultiDiscrete.forward P nvec logits act).2.2
+      = ((splitSizes logits nvec).map P.categoricalEntropy).sum ∧
+    (DistGen.MultiBinary.forward P logits bits).2.2 = (logits.map P.bernoulliEntropy).sum ∧
+    (DistGen.Discrete.forward P logits 0).2.2 = P.categoricalEntropy logits := by
+  refine ⟨rfl, rfl, rfl, rfl, ?_, rfl, rfl⟩
+  rw [gen_multiDiscrete_forward_eq]; rfl
+
+/-- **over the translated source**: `apply_mask` keeps an allowed logit and writes exactly the source's constant
+    (`P.lit (-100000000)`: −1e8) into a masked position, for Discrete on the flat vector and for MultiDiscrete /
+    MultiBinary per split (which is the same as on the flat vector); a Box space with a mask raises. -/
+theorem C16_source_translation_masked_logits (nvec : List Nat) (n : Nat) (ls : List α) (ms : List Bool)
+    (hm : ms.length = ls.length) :
+    DistGen.Discrete.masked_logits P ls ms = maskLogits (P.lit (-100000000)) ls ms ∧
+    (ls.length = nvec.sum →
+      DistGen.MultiDiscrete.masked_logits P nvec ls ms = maskLogits (P.lit (-100000000)) ls ms) ∧
+    (ls.length = n → DistGen.MultiBinary.masked_logits P n ls ms = maskLogits (P.lit (-100000000)) ls ms) ∧
+    (∀ i (hi : i < ls.length), (maskLogits (P.lit (-100000000)) ls ms)[i]?
+        = some (if ms[i] then ls[i] else P.lit (-100000000))) ∧
+    DistGen.Box.masked_logits_raises = "NotImplementedError" := by
+  refine ⟨gen_discrete_masked_logits_eq P ls ms, fun hl => ?_, fun hl => ?_,
+    fun i hi => maskLogits_getElem? _ ls ms i hi (by omega), rfl⟩
+  · rw [gen_multiDiscrete_masked_logits_eq]
+    exact (C16_mask_before_split _ nvec ls ms hl hm).2.1
+  · rw [gen_multiBinary_masked_logits_eq]
+    exact (C16_mask_before_split _ [n] ls ms (by simpa using hl) hm).2.1
+
+/-- **over the translated source**: the masked forward pass is the unmasked one on the masked logits — the mask is
+    applied before the distribution is built, so sampling, log-probability and entropy all see it -/
+theorem C16_source_translation_mask_before_distribution (nvec : List Nat) (n : Nat) (ls : List α)
+    (ms : List Bool) (k : Nat) (act : List Nat) (bits : List Bool) :
+    DistGen.Discrete.forward_masked P ls ms k
+      = DistGen.Discrete.forward P (DistGen.Discrete.masked_logits P ls ms) k ∧
+    DistGen.MultiDiscrete.forward_masked P nvec ls ms act
+      = DistGen.MultiDiscrete.forward P nvec (DistGen.MultiDiscrete.masked_logits P nvec ls ms) act ∧
+    DistGen.MultiBinary.forward_masked P n ls ms bits
+      = DistGen.MultiBinary.forward P (DistGen.MultiBinary.masked_logits P n ls ms) bits := by
+  refine ⟨?_, ?_, ?_⟩
+  · rw [gen_discrete_forward_masked_eq, gen_discrete_masked_logits_eq]
+  · rw [gen_multiDiscrete_forward_masked_eq, gen_multiDiscrete_masked_logits_eq]
+  · rw [gen_multiBinary_forward_masked_eq, gen_multiBinary_masked_logits_eq]
+
+/-- **over the translated source**: with squashing the returned action is the rescaled `tanh` of the draw and the
+    reported log-probability is the primitive Gaussian log-density of the draw (the pre-image) minus
+    `Σ log(1 − a² + 1e-6)` on the squashed action — sign and constants as the source writes them -/
+theorem C16_source_translation_squash_log_prob (low high log_std logits u : List α) :
+    (DistGen.Box.forward P true low high log_std logits u).1
+      = DistGen.Box.scale_action P low high (u.map P.tanh) ∧
+    (DistGen.Box.forward P true low high log_std logits u).2.1
+      = indepLogProb (genComp P log_std logits) u
+        - ((u.map P.tanh).map (fun a => P.log (P.lit 1 - DistGen.powNat (P.lit 1) a 2 + P.lit (1 / 1000000)))).sum := by
+  rw [gen_box_forward_eq P true low high log_std logits u u]
+  exact ⟨rfl, rfl⟩
+
+/-- **over the translated source**: re-evaluating a stored action (not the object `sample()` has just returned)
+    gives the Gaussian at the action's own pre-image `atanh(clamp(a, −1 + eps, 1 − eps))` minus the correction on the
+    action — a function of the action and the current parameters only: the draw of the forward pass that precedes
+    the evaluation does not enter -/
+theorem C16_source_translation_eval_stored_action (log_std logits u' u'' : List α) (eps : α) (a : List α) :
+    DistGen.Box.log_prob_stored P false true log_std logits u' eps a
+      = indepLogProb (genComp P log_std logits) (a.map (genPre P eps)) - (a.map (genCorr P)).sum ∧
+    DistGen.Box.log_prob_stored P false true log_std logits u' eps a
+      = DistGen.Box.log_prob_stored P false true log_std logits u'' eps a := by
+  rw [gen_box_log_prob_stored_eq_evalStored, gen_box_log_prob_stored_eq_evalStored]
+  exact ⟨rfl, C16_eval_stored_action_no_hidden_state _ _ _ u' u'' a _⟩
+
+/-- **over the translated source**: re-evaluating uses the same formula as sampling.  For the discrete spaces and
+    the unsquashed Gaussian literally; with squashing, if `atanh(clamp(tanh x)) = x`, evaluating the action that a
+    forward pass with draw `u` returned gives the log-probability that forward pass reported — whether it is
+    recognised as the cached sample (`fresh`, then the cache holds `u`) or not, and whatever was drawn since. -/
+theorem C16_source_translation_reevaluation_same_formula (low high log_std logits u u' : List α) (eps : α)
+    (nvec : List Nat) (k : Nat) (act : List Nat) (bits : List Bool) (fresh : Bool)
+    (hinv : ∀ x, genPre P eps (P.tanh x) = x) (hfresh : fresh = true → u' = u) :
+    DistGen.Box.log_prob_stored P fresh true log_std logits u' eps (u.map P.tanh)
+      = (DistGen.Box.forward P true low high log_std logits u).2.1 ∧
+    DistGen.Box.log_prob_stored P fresh false log_std logits u' eps u
+      = (DistGen.Box.forward P false low high log_std logits u).2.1 ∧
+    DistGen.Discrete.log_prob_stored P logits k = (DistGen.Discrete.forward P logits k).2.1 ∧
+    DistGen.MultiDiscrete.log_prob_stored P nvec logits act
+      = (DistGen.MultiDiscrete.forward P nvec logits act).2.1 ∧
+    DistGen.MultiBinary.log_prob_stored P logits bits = (DistGen.MultiBinary.forward P logits bits).2.1 := by
+  refine ⟨?_, ?_, rfl, rfl, rfl⟩
+  · rw [gen_box_log_prob_stored_eq, gen_box_forward_eq P true low high log_std logits u u]
+    have h := C16_eval_stored_action (genComp P log_std logits) (genCorr P) P.tanh (genPre P eps) hinv
+      (some u') fresh (u.map P.tanh) (fun hf => ⟨u', rfl, by rw [hfresh hf]⟩)
+    have hpre : (u.map P.tanh).map (genPre P eps) = u := by
+      rw [List.map_map]; conv_rhs => rw [← List.map_id u]
+      exact List.map_congr_left (fun x _ => hinv x)
+    simp only [genDist, TorchDist.sample] at h ⊢
+    rw [h, hpre]
+    simp [TorchDist.logProbFixed]
+  · rw [gen_box_log_prob_stored_eq, gen_box_forward_eq P false low high log_std logits u u]
+    simp [genDist, TorchDist.sample, TorchDist.logProbFixed]
+
+end source_translation
+
+/-! #### carrier ℝ: the primitives are Mathlib's functions, the literals are read exactly -/
+
+/-- **over the translated source**: a masked action has (numerically) zero probability — the softmax mass of a
+    masked entry of the logits the generated `apply_mask` produces is at most `exp(−(1e8 − spread))` when some
+    allowed logit is at least `−spread` (same hypothesis as `C16_masked_prob_bound`; the constant comes from the
+    source text through `P.lit`). -/
+theorem C16_source_translation_masked_prob_bound (P : DistGen.Prims ℝ) (hlit : ∀ q : ℚ, P.lit q = (q : ℝ))
+    (ls : List ℝ) (ms : List Bool) (hm : ms.length = ls.length)
+    (i m : Nat) (hi : i < ls.length) (hmm : m < ls.length)
+    (hmask : ms[i] = false) (hallow : ms[m] = true) (spread : ℝ) (hs : -spread ≤ ls[m]) :
+    softmaxAt (DistGen.Discrete.masked_logits P ls ms) i ≤ Real.exp (-(1e8 - spread)) := by
+  rw [gen_discrete_masked_logits_eq]
+  have : genNeg P = (-1e8 : ℝ) := by rw [genNeg, hlit]; norm_num
+  rw [this]
+  exact C16_masked_prob_bound ls ms hm i m hi hmm hmask hallow spread hs
+
+/-- **over the translated source**: the squash-corrected log-probability `forward` reports is, per dimension, the
+    primitive log-density of the pre-image `u` minus the log of the derivative of the squashing map at `u`
+    (`tanh′ u = 1 − tanh² u`, derived in `Proofs/DistReal.lean`) shifted by the source's `1e-6` inside the logarithm;
+    by `C16_squash_eps_bound` each term differs from the exact change-of-variables term by at most `1e-6 / tanh′ u`. -/
+theorem C16_source_translation_squash_correction (P : DistGen.Prims ℝ) (hlit : ∀ q : ℚ, P.lit q = (q : ℝ))
+    (hlog : P.log = Real.log) (htanh : P.tanh = Real.tanh)
+    (low high log_std logits u : List ℝ) (hs : log_std.length = logits.length) (hu : u.length = logits.length) :
+    (DistGen.Box.forward P true low high log_std logits u).2.1
+      = (List.zipWith (fun f x => f x - Real.log (deriv Real.tanh x + 1e-6)) (genComp P log_std logits) u).sum ∧
+    ∀ x : ℝ, 0 ≤ Real.log (deriv Real.tanh x + 1e-6) - Real.log (deriv Real.tanh x) ∧
+      Real.log (deriv Real.tanh x + 1e-6) - Real.log (deriv Real.tanh x) ≤ 1e-6 / deriv Real.tanh x := by
+  constructor
+  · rw [(C16_source_translation_squash_log_prob P low high log_std logits u).2]
+    have hlen : (genComp P log_std logits).length = u.length := by simp [genComp, hs, hu]
+    have := sum_zipWith_sub (genComp P log_std logits) u (fun x => Real.log (deriv Real.tanh x + 1e-6)) hlen
+    rw [← this]
+    simp only [indepLogProb, List.map_map, Function.comp_def, hlit, hlog, htanh, deriv_tanh, DistGen.powNat]
+    congr 2
+    apply List.map_congr_left
+    intro x _
+    congr 1
+    push_cast
+    ring
+  · intro x
+    have h := C16_squash_eps_bound (Real.tanh x) 1e-6 (Real.tanh_sq_lt_one x) (by norm_num)
+    rw [deriv_tanh]
+    exact h
+
 /-! ### non-vacuity -/
 
 -- MultiDiscrete([2,3]): action (1,2) selects flat entries 1 and 2+2=4
@@ -265,5 +495,17 @@ example : evalStoredCode [fun x : Int => -(x * x)] (fun _ => 0) id [0] [5] = som
 -- the bound of `C16_masked_prob_bound` has satisfiable hypotheses
 example : ∃ (ls : List ℝ) (ms : List Bool), ms.length = ls.length ∧ ms[0]? = some false ∧
     ms[1]? = some true := ⟨[0, 0], [false, true], rfl, rfl, rfl⟩
+
+-- the hypotheses of the source-translation theorems are satisfiable: `atanh ∘ clamp ∘ tanh = id` for the concrete
+-- primitives of `Proofs/DistGenEq.lean`, and a primitive structure over ℝ that reads the literals exactly
+example : ∀ x, genPre exPrims 0 (exPrims.tanh x) = x := fun _ => rfl
+noncomputable example : ∃ P : DistGen.Prims ℝ, (∀ q : ℚ, P.lit q = (q : ℝ)) ∧ P.log = Real.log ∧ P.tanh = Real.tanh :=
+  ⟨{ lit := fun q => (q : ℝ), log := Real.log, exp := Real.exp, tanh := Real.tanh, atanh := fun x => x,
+     clamp := fun lo hi x => max lo (min hi x), normalLogPdf := fun m s x => -((x - m) ^ 2) / (2 * s ^ 2) - Real.log s,
+     normalEntropy := fun _ s => Real.log s, categoricalLogProb := fun l k => l.getD k 0,
+     categoricalEntropy := fun _ => 0, bernoulliLogProb := fun l b => if b then l else -l,
+     bernoulliEntropy := fun _ => 0 }, fun _ => rfl, rfl, rfl⟩
+-- generated MultiDiscrete([2,3]) forward: action (1,2) selects logits 1 and 2+2=4 of the flat vector
+example : (DistGen.MultiDiscrete.forward exPrims [2, 3] [-1, -2, -3, -4, -5] [1, 2]).2.1 = -7 := by decide
 
 end Dist
